@@ -1013,7 +1013,8 @@ func (r *Runtime) typedArrayProto_set(call FunctionCall) Value {
 			if src.defaultCtor == ta.defaultCtor {
 				copy(ta.viewedArrayBuf.data[(ta.offset+targetOffset)*ta.elemSize:],
 					src.viewedArrayBuf.data[src.offset*src.elemSize:(src.offset+srcLen)*src.elemSize])
-			} else {
+			} else if srcLen > 0 {
+				// (an empty view may sit at the very end of its buffer, where there is no element to take the address of)
 				checkTypedArrayMixBigInt(src.defaultCtor, ta.defaultCtor)
 				// reading the constructors' 'name' may run user code
 				ta.viewedArrayBuf.ensureNotDetached(true)
